@@ -1948,7 +1948,11 @@ static int family_of_2x2(int tier, long *t)
 static void run_add(ctx_t *c, int tier, long first, long last)
 {
     vf_result *r = c->r;
-    const double fv[1] = { 1e9 };
+    /* two frequencies: at the first the reference matrix is diagonal (what
+       a test set without reference-channel cross-talk delivers), at the
+       second it is the system under test */
+    const double fv[2] = { 1e9, 2e9 };
+    static const dc adiag[4] = { 1.3, 0, 0, 0.7 - 0.2 * I };
     /* ideal standards: short-open, open-short, match-match, through */
     static const dc Sstd[4][4] = {
 	{ -1, 0, 0, 1 }, { 1, 0, 0, -1 }, { 0, 0, 0, 0 }, { 0, 1, 1, 0 }
@@ -1963,7 +1967,7 @@ static void run_add(ctx_t *c, int tier, long first, long last)
 	vnacal_t *vcp;
 	vnacal_new_t *vnp = NULL;
 	vnadata_t *vdp = NULL;
-	dc av[4][1], bv[4][1];
+	dc av[4][2], bv[4][2];
 	dc *ap[4] = { av[0], av[1], av[2], av[3] };
 	dc *bp[4] = { bv[0], bv[1], bv[2], bv[3] };
 	lc_t A[4];
@@ -1981,7 +1985,7 @@ static void run_add(ctx_t *c, int tier, long first, long last)
 	    vf_fail(r, "setup:vnacal_new_add", "vnacal_create failed");
 	    return;
 	}
-	vnp = vnacal_new_alloc(vcp, VNACAL_T8, 2, 2, 1);
+	vnp = vnacal_new_alloc(vcp, VNACAL_T8, 2, 2, 2);
 	if (vnp == NULL || vnacal_new_set_frequency_vector(vnp, fv) == -1) {
 	    vf_fail(r, "setup:vnacal_new_add", "alloc failed: %s",
 		    apply_log.count ? apply_log.msg[0] : "?");
@@ -1994,8 +1998,13 @@ static void run_add(ctx_t *c, int tier, long first, long last)
 		    lc_t sum = 0;
 		    for (int k = 0; k < 2; ++k)
 			sum += (lc_t)Sstd[st][i * 2 + k] * (lc_t)s.m[k * 2 + j];
+		    bv[i * 2 + j][1] = (dc)sum;
+		    av[i * 2 + j][1] = s.m[i * 2 + j];
+		    sum = 0;
+		    for (int k = 0; k < 2; ++k)
+			sum += (lc_t)Sstd[st][i * 2 + k] * (lc_t)adiag[k * 2 + j];
 		    bv[i * 2 + j][0] = (dc)sum;
-		    av[i * 2 + j][0] = s.m[i * 2 + j];
+		    av[i * 2 + j][0] = adiag[i * 2 + j];
 		}
 	    vf_errlog_reset(&apply_log);
 	    errno = 0;
@@ -2065,18 +2074,18 @@ static void run_add(ctx_t *c, int tier, long first, long last)
 	    goto next;
 	}
 	{
-	    dc mv[4][1], *mp[4] = { mv[0], mv[1], mv[2], mv[3] };
+	    dc mv[4][2], *mp[4] = { mv[0], mv[1], mv[2], mv[3] };
 	    long double worst = 0;
 	    for (int i = 0; i < 4; ++i)
-		mv[i][0] = Sdut[i];
-	    if (vnacal_apply_m(vcp, ci, fv, 1, mp, 2, 2, vdp) == -1) {
+		mv[i][0] = mv[i][1] = Sdut[i];
+	    if (vnacal_apply_m(vcp, ci, fv, 2, mp, 2, 2, vdp) == -1) {
 		fail_sys(c, &s, "add-apply-failed", "vnacal_apply_m failed: "
 			"%s", apply_log.count ? apply_log.msg[0] : "?");
 		goto next;
 	    }
-	    for (int i = 0; i < 4; ++i) {
-		dc got = vnadata_get_cell(vdp, 0, i / 2, i % 2);
-		long double e = cabsl((lc_t)got - (lc_t)Sdut[i]);
+	    for (int i = 0; i < 8; ++i) {
+		dc got = vnadata_get_cell(vdp, i / 4, (i % 4) / 2, i % 2);
+		long double e = cabsl((lc_t)got - (lc_t)Sdut[i % 4]);
 		if (!(e <= worst))
 		    worst = e;
 	    }
